@@ -40,7 +40,7 @@ func main() {
 		"cancellation: a run may succeed if no step starts after the cancellation; if it returns an error, errors.Is(err, context.Canceled) is demanded; no node path is demanded for cancellation",
 		"a convert function that panics lazily is only placed where the stream is merged with a sibling's stream (fan-in), so that the panic happens in a framework goroutine, never in the caller's own Recv",
 	}
-	c.Res.Explanation = "Alphabet: shapes {lin2, lin3, fan-out/fan-in, branch} x kinds {Graph pregel, Graph AllPredecessor, Workflow, Chain (parallel stage / chain branch)} nested to depth 0-2 (graph as node in slot b); quick = depth 0 and 1 complete (16 and 256 towers) and depth 2 with one shape per tower (256 towers), thorough = depth 2 complete (4096). For every tower: every executed node position (inner and outer) x {sentinel, custom typed error, panic(string), panic(error)} x native body {invoke, stream (call-time error / error item after a chunk), collect, transform (call-time / item)} x peers {invoke, lazy transform} x {Invoke, Stream, Collect, Transform}; two parallel failing nodes (all 16 kind pairs, 3 native runs each); a tool in a ToolsNode (1-3 calls, every failing call index: 0 inline, >0 goroutine; invokable / streamable tools) inside 0-1 (thorough 0-2) host graphs; a convert function panicking inside merged converted / copied streams at schema level and at a graph fan-in; step limit (cyclic pregel graph and too-short limit on a line, compile option and call option, 0-2 hosts); context cancelled before the run and from inside every node position. Oracle = the statement: a failing run never succeeds (call error or error item); errors.Is / errors.As recover the original; the error text names the node keys outermost->innermost; errors.Is(err, ErrExceedMaxSteps) / errors.Is(err, context.Canceled); a panic surfaces as an error mentioning it, the process survives (journal), the run returns (120 s guard). Every broken clause is its own violation with its own signature."
+	c.Res.Explanation = "Alphabet: shapes {lin2, lin3, fan-out/fan-in, branch} x kinds {Graph pregel, Graph AllPredecessor, Workflow, Chain (parallel stage / chain branch)} nested to depth 0-2 (graph as node in slot b); quick = depth 0 and 1 complete (16 and 256 towers) and depth 2 with one shape per tower and one kind on the two outer levels (64 towers), thorough = depth 2 complete (4096 towers). For every tower: every executed node position (inner and outer) x {sentinel, custom typed error, panic(string), panic(error)} x native body {invoke, stream (call-time error / error item after a chunk), collect, transform (call-time / item)} x peers {invoke, lazy transform} x {Invoke, Stream, Collect, Transform}; two parallel failing nodes (all 16 kind pairs, 3 native runs each); a tool in a ToolsNode (1-3 calls, every failing call index: 0 inline, >0 goroutine; invokable / streamable tools) inside 0-1 (thorough 0-2) host graphs; a convert function panicking inside merged converted / copied streams at schema level and at a graph fan-in; step limit (cyclic pregel graph and too-short limit on a line, compile option and call option, 0-2 hosts); context cancelled before the run and from inside every node position. Oracle = the statement: a failing run never succeeds (call error or error item); errors.Is / errors.As recover the original; the error text names the node keys outermost->innermost; errors.Is(err, ErrExceedMaxSteps) / errors.Is(err, context.Canceled); a panic surfaces as an error mentioning it, the process survives (journal), the run returns (120 s guard). Every broken clause is its own violation with its own signature."
 
 	if v := c.LoadReplay(); v != nil {
 		cs, err := decodeCase(v.Case)
